@@ -132,7 +132,7 @@ func zeroOfSort(s string) string {
 	case SBool:
 		return "false"
 	case SArr:
-		return "strk"
+		return "((as const (Array Int Int)) 0)"
 	}
 	if strings.HasPrefix(s, "(Array Int ") {
 		inner := strings.TrimSuffix(strings.TrimPrefix(s, "(Array Int "), ")")
